@@ -184,13 +184,9 @@ class CronWorld(object):
 
     def _install_failpoint(self):
         from mistral.services import periodic
-        mon = sys.monitoring
-        try:
-            mon.use_tool_id(TOOL_ID, 'mvf-cron-failpoint')
-        except ValueError:
-            pass
-        self._codes = [periodic.process_cron_triggers_v2.__code__,
-                       periodic.advance_cron_trigger.__code__]
+        from mvf import failpoint
+        codes = [periodic.process_cron_triggers_v2.__code__,
+                 periodic.advance_cron_trigger.__code__]
 
         def on_line(code, line):
             u = self.coop.current()
@@ -206,19 +202,11 @@ class CronWorld(object):
                     self.rec.emit('CRASH', proc=p, line=line,
                                   func=code.co_name)
                     raise Crash()
-        mon.register_callback(TOOL_ID, mon.events.LINE, on_line)
-        for c in self._codes:
-            mon.set_local_events(TOOL_ID, c, mon.events.LINE)
+        failpoint.activate(codes, on_line)
 
     def _remove_failpoint(self):
-        mon = sys.monitoring
-        try:
-            for c in self._codes:
-                mon.set_local_events(TOOL_ID, c, 0)
-            mon.register_callback(TOOL_ID, mon.events.LINE, None)
-            mon.free_tool_id(TOOL_ID)
-        except Exception:
-            pass
+        from mvf import failpoint
+        failpoint.deactivate()
 
     def _choose(self, cands):
         if len(cands) == 1:
